@@ -251,16 +251,17 @@ PROPS["C11"] = dict(
 
 def _c12_runs(tier):
     K = 1024
-    triples = [(4*K, 32*K, 64*K), (32*K, 256*K, 1024*K), (64*K, 1280*K, 54*K*K), (4*K, 32*K, 54*K*K), (32*K, 1310720, 56623104)]
+    # L3 values whose derived block sizes are NOT multiples of 64 are included on purpose: 512 KiB -> MUL_BLOCKSIZE 724, 2 MiB -> 1448, 3 MiB -> 1773
+    triples = [(4*K, 32*K, 64*K), (32*K, 256*K, 1024*K), (64*K, 1280*K, 54*K*K), (4*K, 32*K, 54*K*K), (32*K, 1310720, 56623104), (32*K, 256*K, 512*K), (32*K, 256*K, 2048*K)]
     if tier == "thorough":
-        L1s, L2s, L3s = [4*K, 32*K, 64*K], [32*K, 256*K, 1280*K], [64*K, 1024*K, 54*K*K]
+        L1s, L2s, L3s = [4*K, 32*K, 64*K], [32*K, 256*K, 1280*K], [64*K, 512*K, 1024*K, 2048*K, 3072*K, 54*K*K]
         triples = [(a, b, c) for a in L1s for b in L2s for c in L3s if a <= b <= c]
     rs = []
     env4 = dict(OMP_NUM_THREADS="4")
     for i, (l1, l2, l3) in enumerate(triples):
         for sse2 in (1, 0):
             flavours = [(0, 0)]
-            if tier == "thorough" or i in (0, 2):
+            if (tier == "thorough" and (l3 in (64*K, 1024*K, 54*K*K))) or (tier != "thorough" and i in (0, 2)):
                 flavours += [(1, 0), (0, 1), (1, 1)] if (tier == "thorough" or sse2 == 1) else []
             for ts, omp in flavours:
                 if tier != "thorough" and (ts, omp) != (0, 0) and i == 2 and sse2 == 1 and (ts, omp) == (1, 1):
@@ -290,7 +291,7 @@ def _c12_cross(results):
 
 PROPS["C12"] = dict(
     level="exploration", runs=_c12_runs, cross_check=_c12_cross,
-    rule="configuration lattice: cache triples (L1,L2,L3) with L1 in {4K,32K,64K}, L2 in {32K,256K,1280K}, L3 in {64K,1M,54M}, L1<=L2<=L3 (5 triples quick incl. the host's, all 15 thorough) x SSE2 {on,off} x {default, thread-safe, OpenMP, both} (flag mapping evaluated from configure.ac's own fragment; OpenMP builds use gcc + libgomp with 4 threads) = 16 builds quick / 120 thorough; one fixed case list run in every build: products (mzd_mul x 7 cutoffs, mzd_mul_m4rm x k in {0,2..8}, naive, both accumulate forms) on shapes at every blocking/recursion threshold of every configuration (255..257, 511..513, 1023..1025, (2047..2049)), RREF + rank by M4RI (k = 0..10), PLUQ-based, hybrid, naive, PLUQ reconstruction x cutoffs, inversion (k = 0..10), four TRSM + trtri x cutoffs, solve verdicts; every result equals the reference model and the (case, digest) tables of all builds are identical; non-trivial = every case; distinct = distinct (case, parameter) per build",
+    rule="configuration lattice: cache triples (L1,L2,L3) with L1 in {4K,32K,64K}, L2 in {32K,256K,1280K}, L3 in {64K,512K,1M,2M,3M,54M} (512K/2M/3M give block sizes 724/1448/1773 that are not multiples of 64), L1<=L2<=L3 (7 triples quick incl. the host's, all thorough) x SSE2 {on,off} x {default, thread-safe, OpenMP, both} (flag mapping evaluated from configure.ac's own fragment; OpenMP builds use gcc + libgomp with 4 threads) = 20 builds quick / ~150 thorough; one fixed case list run in every build: products (mzd_mul x 7 cutoffs, mzd_mul_m4rm x k in {0,2..8}, naive, both accumulate forms) on shapes at every blocking/recursion threshold of every configuration (255..257, 511..513, 1023..1025, (2047..2049)), RREF + rank by M4RI (k = 0..10), PLUQ-based, hybrid, naive, PLUQ reconstruction x cutoffs, inversion (k = 0..10), four TRSM + trtri x cutoffs, solve verdicts; every result equals the reference model and the (case, digest) tables of all builds are identical; non-trivial = every case; distinct = distinct (case, parameter) per build",
     level_text="Exhaustive enumeration of a configuration lattice crossed with every tuning parameter value on a fixed case list whose shapes straddle every configuration-derived threshold; results are compared with the reference model and digest tables are compared between builds.",
     level_note="Bounded: lattice points only (not every cache size), shapes <= 2049, plain -O2 builds with clang 14 / gcc 12 (no sanitizer here; the sanitized multi-configuration runs are in C01-C11).",
     technique="exhaustive enumeration of a build-configuration lattice x parameter alphabets on the real code (digest tables compared across builds and with a reference model)",
